@@ -72,12 +72,7 @@ def _run_task(task):
             # generated program: its three twin files live only for this run
             from . import harness
 
-            for variant in harness.VARIANTS:
-                fp = os.path.join(harness.scratch_dir(), harness.module_name(sc["prog_name"], variant) + ".py")
-                try:
-                    os.unlink(fp)
-                except OSError:
-                    pass
+            harness.forget_private(sc["prog_name"])
     res["digest"] = world.digest(
         [sc, [v[0] for v in res["viol"]], [h[0] for h in res["herr"]], res["sig"], res["events"],
          res["steps"], res.get("oplog")]
